@@ -131,10 +131,17 @@ pub fn run(args: &Args) {
                 dags.push(d.clone())
             }
         });
-        let ex = run_all(&mut rep, name, &dags, oracles, false, |c, _| matches!(c, "commit-outcome" | "history-shrank" | "failed-op-changed-state" | "cmdset" | "heads"), |d, f| cases(d, actors, act, split, f));
+        let filter: crate::props::simrun::Filter = |c, _| matches!(c, "commit-outcome" | "history-shrank" | "failed-op-changed-state" | "cmdset" | "heads");
+        let ex = run_all(&mut rep, name, &dags, oracles, false, filter, |d, f| cases(d, actors, act, split, f));
         families.push(json!({"family": name, "universes": dags.len(), "executions": ex}));
+        // the file writer's stamp is a file offset rather than a counter: same space on the libc backend
+        let small: Vec<Dag> = dags.iter().filter(|d| d.len() <= if args.tier == Tier::Thorough { 5 } else { 4 }).cloned().collect();
+        let exf = crate::props::simrun::run_all_on(&mut rep, name, &small, oracles, false, filter, true, |d, f| cases(d, actors, act, split, f));
+        rep.count("file_backend_executions", exf);
+        families.push(json!({"family": format!("{name} [file backend]"), "universes": small.len(), "executions": exf}));
     }
     rep.require_nonzero("concurrent_transaction_errors");
+    rep.require_nonzero("file_backend_executions");
     rep.require_nonzero("ok_actions");
     finish(rep, families)
 }
